@@ -46,9 +46,18 @@ CELLS = {'A1': 101, 'B2': 103, 'AA10': Fraction(1, 4), 'C3': 107, 'A$1': 109, '$
 LEVEL = {'*': 3, '/': 3, '+': 2, '-': 2, '&': 1, '<': 0, '>': 0, '=': 0, '<=': 0, '>=': 0, '<>': 0}
 
 
+BIG = [(9007199254740993, 9007199254740992), (12345678901234569, 12345678901234567), (10 ** 16 + 1, 10 ** 16 - 2),
+       (99999999999999999999, 99999999999999999990), (9007199254740992, 9007199254740995), (18014398509481985, 18014398509481984)]
+
+
 def atom(rng):
     k = rng.randrange(10)
     if k < 5:
+        if rng.random() < 0.06:
+            # the difference of two integer literals of 16..20 digits (beyond 2^53: exact in the tree, exact in Python's
+            # ints, a small integer as a value; kept as one subtree so that no float ever meets the long operands)
+            a, b = rng.choice(BIG)
+            return ('bin', '-', ('num', str(a), Fraction(a)), ('num', str(b), Fraction(b)))
         n = rng.choice(PRIMES)
         return ('num', str(n), Fraction(n))
     if k == 5:
